@@ -234,6 +234,9 @@ def specs(max_modules=3, aux=True, rich_refs=False, max_aux_depth=2):
                 "sections": [section() for _ in range(draw(st.sampled_from([0, 1, 1, 2, 3])))],
                 "symbols": [symbol() for _ in range(draw(st.sampled_from([0, 1, 2, 3, 5 if not rich_refs else 8])))],
                 "entry": draw(st.one_of(st.none(), st.integers(0, 5))),
+                # None: the entry point is a code block of this module; k: of
+                # module k (mod number of modules) of the same IR
+                "entry_mod": draw(st.sampled_from([None, None, None, 0, 1, 2])),
                 "entry_how": draw(st.integers(0, 1)),
                 "aux": aux_list(),
                 "aux_how": draw(st.integers(0, 1)),
@@ -376,6 +379,9 @@ class Resolved:
 
     def entry(self, minfo):
         e = minfo["spec"]["entry"]
+        em = minfo["spec"].get("entry_mod")
+        if em is not None and self.mods:
+            minfo = self.mods[em % len(self.mods)]
         if e is None or not minfo["code"]:
             return None
         return minfo["code"][e % len(minfo["code"])]
